@@ -59,6 +59,33 @@ def run(ctx):
     reject_if(ctx, 'C12.X', pr, lambda a: mentions_call(a, 'Rule::IsReservedBinding') or
               ('"command"' in dstr(a) and '"depfile"' in dstr(a)), False,
               'X7 rule variable that is not one of the reserved names', 'X7:non-reserved-rule-variable')
+    # ... and the reserved names are exactly the documented eleven, each recognised by comparing the whole name
+    # (a prefix / length-limited comparison would accept `dep` or `res`)
+    RESERVED = {'command', 'depfile', 'dyndep', 'description', 'deps', 'generator', 'pool', 'restat', 'rspfile', 'rspfile_content',
+                'msvc_deps_prefix'}
+    irb = prog.fn('Rule::IsReservedBinding')
+    lits, partial, eqs = set(), [], 0
+    for e in irb.events():
+        for x in walk({k: v for k, v in e.items() if not k.startswith('_')}):
+            if x.get('k') == 'str':
+                lits.add(x['v'])
+            if x.get('k') == 'call':
+                ln = lastname(x.get('name') or '').split('<')[0]
+                if ln in ('strncmp', 'memcmp', 'strncasecmp', 'starts_with', 'find', 'rfind', 'strstr') or \
+                        (ln == 'compare' and len(x.get('args') or []) >= 2):
+                    partial.append(ln)
+                if ln.startswith('operator==') or x.get('op') == '==' or ln == 'strcmp' or (ln == 'compare' and len(x.get('args') or []) == 1):
+                    eqs += 1
+    for g in (prog.globals or {}).values() if isinstance(prog.globals, dict) else []:
+        pass
+    tbl = set()
+    for x in walk([e for e in irb.events()] and [{k: v for k, v in e.items() if not k.startswith('_')} for e in irb.events()]):
+        if x.get('k') == 'var' and x.get('vk') in ('global', 'static') and isinstance(prog.globals, dict) and x['n'] in prog.globals:
+            tbl |= {y['v'] for y in walk(prog.globals[x['n']]) if isinstance(y, dict) and y.get('k') == 'str'}
+    ctx.check('C12.X', (lits | tbl) == RESERVED, irb.name, 'X7:reserved-names', irb.loc,
+              'the reserved rule variables are the documented ones: missing %s, extra %s' % (sorted(RESERVED - (lits | tbl)), sorted((lits | tbl) - RESERVED)))
+    ctx.check('C12.X', not partial and eqs >= 1, irb.name, 'X7:reserved-name-partial-compare', irb.loc,
+              'each reserved name is recognised by a whole-string equality (%d equalities; length-limited / substring comparisons: %s)' % (eqs, partial))
     reject_if(ctx, 'C12.X', pr, lambda a: '"rspfile"' in dstr(a) and '"rspfile_content"' in dstr(a), False,
               'X8 rspfile and rspfile_content only together', 'X8:rspfile-pair')
     reject_if(ctx, 'C12.X', pp, lambda a: strip(a).get('k') == 'bin' and strip(a)['op'] == '<' and
@@ -190,6 +217,24 @@ def run(ctx):
         ctx.check('C12.TA1', r is None, parse.name, 'include-kind:new_scope', parse.where(e),
                   'ParseFileInclude(new_scope) is called with false under `include` and true under `subninja` (%s)' % dstr(e['args'][0])[:50],
                   witness=None if r is None else {'blocks': r[0]})
+    # a top-level `name = value` always binds in the scope of the file being parsed - also when the value is what the
+    # name already evaluates to through the enclosing scopes: a later re-assignment in the including file must not
+    # reach into a subninja file that declared the value itself
+    for e in parse.calls('ManifestParser::ParseLet'):
+        ok_edges = [(b, i, s2) for b, blk in parse.blocks.items() for i, s2 in enumerate(blk['succ']) if s2 is not None and
+                    any(pol is True and mentions_call(atom, 'ManifestParser::ParseLet') for k, pol, atom in parse.edge_facts(b, i))]
+        nxt = list(parse.calls('Lexer::ReadToken'))
+        okl = bool(ok_edges) and bool(nxt)
+        w = None
+        for b, i, s2 in ok_edges:
+            r = parse.find_path(None, lambda x: x in nxt or x['k'] == 'ret', from_succ=s2,
+                                is_blocker=lambda x: x['k'] == 'call' and x.get('name') == 'BindingEnv::AddBinding' and
+                                mentions_field(x.get('recv'), 'ManifestParser::env_'))
+            if r is not None:
+                okl, w = False, r[0]
+        ctx.check('C12.TA1', okl, parse.name, 'top-level-let:not-bound', parse.where(e),
+                  'every successfully parsed top-level `name = value` is bound in env_ before the next statement',
+                  witness=None if w is None else {'blocks': w})
     loads = list(pfi.calls('Parser::Load'))
     ctx.check('C12.TA1', len(loads) == 1, pfi.name, 'include:load-sites', pfi.loc, 'one sub-parser Load')
     envw = [e for e in pfi.events('asg') if mentions_field(e['l'], 'ManifestParser::env_') or mentions_field(e['l'], 'Parser::env_')]
@@ -217,7 +262,7 @@ def run(ctx):
     ctx.check('C12.TA1', len(news) == 1 and mentions_field(news[0].get('args'), 'ManifestParser::options_'), pfi.name,
               'subparser:options-not-inherited', pfi.loc,
               'the sub-parser is constructed with the parent\'s options_: %s' % [dstr(e.get('args')) for e in news])
-    ctx.floor('C12.TA1', 6)
+    ctx.floor('C12.TA1', 7)
 
     # ---- O2: lookup order --------------------------------------------------------------------------
     R('C12.O2', 'O', 'variable lookup order: bindings of the edge, then the rule binding evaluated '
